@@ -254,5 +254,5 @@ package heapq
 //@   role cmp ord
 //@   ensures [C05] outside: unchanged_outside(vs)
 //@   modifies elems(vs), rep
-//@   loop 1: invariant [C05] heap: q != nil && fresh(q) && heapOK(q) && q.data.base == vs.base && q.data.off == vs.off && len(q.data) <= len(vs) && unchanged_outside(vs)
+//@   loop 1: invariant [C05] heap: q != nil && fresh(q) && heapOK(q) && q.data.base == vs.base && q.data.off == vs.off && len(q.data) <= len(vs) && unchanged_outside(vs) && other_arrays_unchanged(vs)
 //@   loop 1: decreases len(q.data)
